@@ -230,7 +230,9 @@ def run_property(prop, tier, only, nproc, timeout, write_evidence, verbose):
                 import re as _re
                 ms = _re.match(r'the code under check raised (\w+)', c['msg'])
                 mr = _re.findall(r'(?m)^(\w+(?:\.\w+)*)(?::|$)', str(detail).strip().splitlines()[-1]) if ('raised' in str(detail) and str(detail).strip()) else []
-                if lem.api and ms and mr and mr[0].split('.')[-1] == ms.group(1):
+                files = _re.findall(r'File "([^"]+)"', str(detail))
+                in_pkg = bool(files) and (os.sep + 'mpgameserver' + os.sep) in files[-1]
+                if lem.api and in_pkg and ms and mr and mr[0].split('.')[-1] == ms.group(1):
                     reproduced = True
                     detail = 'the real package raises the same %s on these inputs: %s' % (ms.group(1), str(detail).strip().splitlines()[-1][:200])
             rec['replay_detail'] = detail
